@@ -39,7 +39,10 @@ func init() {
 		if r.Quick() {
 			engine.RunSeq(r, engine.SeqSpec{Name: "c01-wide", WorkerArgs: []string{"worker", "store"}, Alphabet: vOpsJSON(wide), Params: params, Depth: 2, Budget: 60 * time.Second})
 			engine.RunSeq(r, engine.SeqSpec{Name: "c01-narrow", WorkerArgs: []string{"worker", "store"}, Alphabet: vOpsJSON(narrow), Params: params, Depth: 3, Budget: 60 * time.Second})
+			// the same observations through GET /datasets/{ds}/entities (paged) and POST /query {entityId}
+			engine.RunSeq(r, engine.SeqSpec{Name: "c01-http", WorkerArgs: []string{"worker", "http-store"}, Alphabet: vOpsJSON(narrow), Params: params, Depth: 2, Budget: 60 * time.Second})
 		} else {
+			engine.RunSeq(r, engine.SeqSpec{Name: "c01-http", WorkerArgs: []string{"worker", "http-store"}, Alphabet: vOpsJSON(narrow), Params: params, Depth: 3, Budget: 20 * time.Minute})
 			engine.RunSeq(r, engine.SeqSpec{Name: "c01-wide", WorkerArgs: []string{"worker", "store"}, Alphabet: vOpsJSON(wide), Params: params, Depth: 3, Budget: 40 * time.Minute})
 			engine.RunSeq(r, engine.SeqSpec{Name: "c01-narrow", WorkerArgs: []string{"worker", "store"}, Alphabet: vOpsJSON(narrow), Params: params, Depth: 4, Budget: 30 * time.Minute})
 		}
@@ -66,6 +69,12 @@ func init() {
 			depth, budget = 5, 40*time.Minute
 		}
 		engine.RunSeq(r, engine.SeqSpec{Name: "c02", WorkerArgs: []string{"worker", "store"}, Alphabet: vOpsJSON(alpha), Params: params, Depth: depth, Budget: budget})
+		// the same feeds through GET /datasets/{ds}/changes?since=&limit=&latestOnly= (tokens followed)
+		hdepth := 2
+		if !r.Quick() {
+			hdepth = 3
+		}
+		engine.RunSeq(r, engine.SeqSpec{Name: "c02-http", WorkerArgs: []string{"worker", "http-store"}, Alphabet: vOpsJSON(writes), Params: params, Depth: hdepth, Budget: budget})
 	})
 
 	engine.RegisterCheck("C03", func(r *engine.Run) {
@@ -81,6 +90,15 @@ func init() {
 			depth, budget = 3, 40*time.Minute
 		}
 		engine.RunSeq(r, engine.SeqSpec{Name: "c03", WorkerArgs: []string{"worker", "store"}, Alphabet: vOpsJSON(alpha), Params: params, Depth: depth, Budget: budget})
+		{
+			// the same queries through POST /query (continuations base64 round trip)
+			hs := vWriteAlphabet(vDS, []string{"e1"}, poolIdx("r2", "dr2", "pq2", "e", "r23", "r3"), poolIdx("r2", "dr2"), nil)
+			hdepth := 2
+			if !r.Quick() {
+				hdepth = 3
+			}
+			engine.RunSeq(r, engine.SeqSpec{Name: "c03-http", WorkerArgs: []string{"worker", "http-store"}, Alphabet: vOpsJSON(hs), Params: params, Depth: hdepth, Budget: budget})
+		}
 		if r.Quick() {
 			small := vWriteAlphabet(vDS, []string{"e1"}, poolIdx("r2", "dr2", "pq2", "e", "r23", "r3"), poolIdx("r2", "dr2"), nil)
 			small = append(small, VOp{K: "batch", DS: "A", Ents: []VEnt{{"e2", refs[7]}}})
